@@ -372,7 +372,31 @@ def _non_ascii_bytes_forms():
     return out
 
 
+def _bad_hex_escape_forms():
+    """\\x / \\u / \\U escapes with one non-hex character at every digit position (signs, blanks, underscore, letters
+    past f, a quote, a multi-byte digit), truncated at every length, in text, bytes and f-string literals."""
+    out = []
+    for esc, n, prefixes in (("x", 2, ("", "b", "f")), ("u", 4, ("", "f")), ("U", 8, ("", "f"))):
+        good = "0000004" + "1"
+        good = good[-n:]
+        for prefix in prefixes:
+            for pos in range(n):
+                for bad in ("+", "-", " ", "_", "g", "G", "x", ".", "\uff11", "\u0661"):
+                    if prefix == "b" and ord(bad) > 127:
+                        continue
+                    digits = good[:pos] + bad + good[pos + 1:]
+                    out.append(("%s'a\\%s%sz'" % (prefix, esc, digits), "invalid-escape"))
+            for k in range(n):
+                out.append(("%s'\\%s%s'" % (prefix, esc, good[:k]), "invalid-escape"))
+                out.append(("%s'\\%s%s' %s'x'" % (prefix, esc, good[:k], "b" if prefix == "b" else ""), "invalid-escape"))
+    for name in ("", " ", "nope", "LATIN SMALL LETTER", "LATIN SMALL LETTER A ", "{LATIN SMALL LETTER A}"):
+        out.append(("'\\N{%s}'" % name, "invalid-escape"))
+        out.append(("f'\\N{%s}{x}'" % name, "invalid-escape"))
+    return out
+
+
 STRING_BAD += _non_ascii_bytes_forms()
+STRING_BAD += _bad_hex_escape_forms()
 NUMBER_BAD = ["1__0", "1_", "0x", "0b2", "0o8", "012", "1_e5", "0_x1", "1.5e+", "0b", "0O", "1e", "0x_", "1_.5", "0o", "9e-", "0b12", "0xg", "0_7_", "1.2.3", "1e5e5", "0_", "1j2", "0x1.5", "1_j", "0b1_", "0o1__2", "00_1", "0127", "1e1_", "1__e1", ".5_", "1.e_5"]
 CONTEXTS = ["x = %s\n", "f(%s)\n", "if a:\n    y = [%s]\n", "class C:\n  def m(self): return (%s)\n", "é = (%s,)\n"]
 
